@@ -37,6 +37,16 @@ def _is_recoverable(obj):
     return False
 if _VF_SYMBOLIC:
   _types.is_recoverable = _is_recoverable
+  # CrossHair may "short-circuit" calls of contract-bearing helpers - in practice its own models of hash()/repr() -
+  # by forking and returning a fresh symbolic value (30 % branch). A symbolic hash handed to the C-level dict/tuple
+  # hashing of the MetricKey / SliceKey dataclasses raises a spurious TypeError, and every call doubles the paths.
+  # Always interpreting the function body is the exact semantics, so the optional skipping is switched off.
+  import crosshair.core as _cc
+  _orig_consider_shortcircuit = _cc.consider_shortcircuit
+  def _no_shortcircuit(fn, sig, bound, subconditions, allow_interpretation):
+    if allow_interpretation: return None
+    return _orig_consider_shortcircuit(fn, sig, bound, subconditions, allow_interpretation)
+  _cc.consider_shortcircuit = _no_shortcircuit
 T = transform.TreeTransform
 
 class Seq:
@@ -364,6 +374,8 @@ def run(tier):
   rep.assume('types.is_recoverable re-expressed with try/getattr instead of hasattr during symbolic runs (CrossHair limitation; same semantics)',
              'absl logging and time.time in transform.py/iter_utils.py/io.py replaced by no-ops during symbolic runs (stubs; they only feed log messages)',
              'shard states are copied (per-key list copy) before each of the three merges: the in-place aggregate folds into the first state',
+             "CrossHair's optional probabilistic short-circuiting of contract-bearing helper calls (its own hash()/repr() models) is switched "
+             'off during symbolic runs: bodies are always interpreted (exact semantics; avoids symbolic hashes reaching C-level dict hashing)',
              'CrossHair/z3 sound for int/list/dict/dataclass semantics')
   only = os.environ.get('VF_ONLY')
   xh.run_module(rep, gen(**p), 'c03_h', timeout, classify=classify, only=(lambda n: only in n) if only else None)
